@@ -353,7 +353,10 @@ def run_param_layouts(ctx):
              'pdir/limits.json': '{"Limits": {"max": 10}}', 'pcopy/limits.json': '{"Limits": {"max": 10}}', 'pcopy/names.yaml': 'Names:\n  owner: me\n',
              'pnest/a/limits.json': '{"Limits": {"max": 10}}', 'pnest/b/names.yaml': 'Names:\n  owner: me\n',
              'union_ok.json': '{"Limits": {"max": 10}, "Names": {"owner": "me"}, "size": 5}', 'union_bad.json': '{"Limits": {"max": 10}, "Names": {"owner": "me"}, "size": 50}',
-             'all.json': '{"Limits": {"max": 10}, "Names": {"owner": "me"}, "size": 5}'}
+             'all.json': '{"Limits": {"max": 10}, "Names": {"owner": "me"}, "size": 5}',
+             # file names: a leading dot, several dots, a blank, a leading dash-like character - a parameter file is a parameter file
+             '.limits.json': '{"Limits": {"max": 10}}', '.names.yaml': 'Names:\n  owner: me\n', 'pdot/.limits.json': '{"Limits": {"max": 10}}', 'pdot/names.yaml': 'Names:\n  owner: me\n',
+             'limits.v2.json': '{"Limits": {"max": 10}}', 'my names.yaml': 'Names:\n  owner: me\n', '_limits.json': '{"Limits": {"max": 10}}', '~names.yaml': 'Names:\n  owner: me\n'}
     e2e.write_files(d, files)
     for link, target in (('pdir/names.yaml', '../outside/names.yaml'), ('linked_limits.json', 'outside/limits.json')):
         p_ = os.path.join(d, link)
@@ -367,6 +370,11 @@ def run_param_layouts(ctx):
         'a link to a parameter file': ['-i', 'linked_limits.json', '-i', 'outside/names.yaml'],
         'an empty struct as the last parameter file': ['-i', 'outside/limits.json', '-i', 'outside/names.yaml', '-i', 'empty.json'],
         'an empty struct as the first parameter file': ['-i', 'empty.yaml', '-i', 'outside/limits.json', '-i', 'outside/names.yaml'],
+        'dot-named parameter files': ['-i', '.limits.json', '-i', '.names.yaml'],
+        'a dot-named parameter file and an ordinary one': ['-i', 'outside/names.yaml', '-i', '.limits.json'],
+        'a dot-named file in a parameter directory': ['-i', 'pdot'],
+        'names with several dots and a blank': ['-i', 'limits.v2.json', '-i', 'my names.yaml'],
+        'names starting with _ and ~': ['-i', '_limits.json', '-i', '~names.yaml'],
     }
     jobs, meta = [], []
     for mlab, flags in (('plain', []), ('structured', ['--structured', '-o', 'json', '-S', 'none'])):
